@@ -235,6 +235,7 @@ def run(ctx):
         ("2020 Jane Doe", "MIT OR Apache-2.0\n Either licence, at your option."),
         ("2020 Jane Doe", "GPL-2.0-or-later WITH Classpath-exception-2.0"),
         ("2020 Jane Doe\n 2021 Jane Doe", "LicenseRef-custom\n All rights reserved."),
+        ("2020 Jane  Doe <jane@example.com>\n 2021 ACME\tCorp", "MIT"),  # interior runs of blanks are part of the line
     ]
     for fi, (cr, lic) in enumerate(FIELD_SHAPES):
         t0, n0 = time.time(), q.n
